@@ -25,7 +25,7 @@ pub mod product { use super::*;
 }
 pub mod collect { use super::*;
     #[verifier::external_body]
-    pub fn exec(var: Variable, interpreter: &mut Interpreter) -> (r: Result<Variable, ExecError>) { unimplemented!() }
+    pub fn exec(var: Variable) -> (r: Result<Variable, ExecError>) { unimplemented!() }
 }
 impl FunV {
     /// Function::exec on the callee (its own unit proves what it does with its body)
